@@ -288,9 +288,7 @@ def euler(ai, bi, select, b1950=False, dtype="f8"):
     cb = cos(b)
     cbsa = cb * sin(a)
     b = -stheta[i] * cbsa + ctheta[i] * sb
-    (w,) = np.where(b > 1.0)
-    if w.size > 0:
-        b[w] = 1.0
+    np.clip(b, -1.0, 1.0, b)
     bo = arcsin(b) * R2D
 
     a = arctan2(ctheta[i] * cbsa + stheta[i] * sb, cb * cos(a))
@@ -1279,9 +1277,7 @@ def rotate(phi, theta, psi, ra, dec):
 
     b = -sintheta * cbsa + costheta * sb
 
-    (w,) = np.where(b > 1.0)
-    if w.size > 0:
-        b[w] = 1.0
+    np.clip(b, -1.0, 1.0, b)
 
     dec_out = arcsin(b)
 
